@@ -154,9 +154,16 @@ type execOutcome struct {
 type scenarioRunner struct {
 	calls int
 	run   func(ctx context.Context, req *runner_pb.RunRequest) (*runner_pb.RunResponse, error)
+	// Readiness-check scenarios (readiness_faults_test.go); nil: ready.
+	check func(ctx context.Context, req *runner_pb.CheckReadinessRequest) error
 }
 
 func (r *scenarioRunner) CheckReadiness(ctx context.Context, in *runner_pb.CheckReadinessRequest, opts ...grpc.CallOption) (*emptypb.Empty, error) {
+	if r.check != nil {
+		if err := r.check(ctx, in); err != nil {
+			return nil, err
+		}
+	}
 	return &emptypb.Empty{}, nil
 }
 
@@ -470,7 +477,7 @@ func drawExecScenario(rt *rapid.T) *execScenario {
 	sc.rc = refCommandOf(sc.ci.workdir, sc.ci.paths)
 	sc.initial = drawInputRoot(rt, &sc.rc)
 	dropSpecials(sc.initial)
-	sc.exitCode = rapid.SampledFrom([]int{0, 0, 0, 1, 137}).Draw(rt, "exit_code")
+	sc.exitCode = rapid.SampledFrom([]int{0, 0, 0, 1, 137, 255, 256, 512, 0x7fffff00, -1}).Draw(rt, "exit_code")
 	sc.stdout = rapid.SampledFrom(stdoutPool).Draw(rt, "stdout")
 	sc.stderr = rapid.SampledFrom(stderrPool).Draw(rt, "stderr")
 	sc.doNotCache = rapid.Bool().Draw(rt, "do_not_cache")
@@ -669,7 +676,7 @@ func TestC09ExecutorUploadFaults(t *testing.T) {
 	rapid.Check(t, func(rt *rapid.T) { runExecutorFaultCase(rt, t, rec, cfg, scratch) })
 }
 
-const c12ExecutorRule = "rapid: scenarios as C09 executor_upload_faults (including escaping working directories / output paths), backend in {in-memory fake x3, real virtual build directory x1}; the BuildDirectory returned by the fake BuildDirectoryCreator and every handle entered from it are wrapped (call sequence numbers, Close counts). After the fault-free run, one run per fault: every fallible call before the runner returns (GetBuildDirectory, Mkdir of root / output parents / tmp / server_logs, EnterBuildDirectory, MergeDirectoryContents, fetching the command, Close of the handles used to create parents), the runner call, every Close, and up to 10 drawn calls of the upload phase (UploadFile, Lstat, ReadDir, Readlink, Enter, CAS Put) -- each once failing (drawn gRPC status / errno) and once with the outer context cancelled at that call (fake runner, CAS and creator refuse a done context like gRPC clients). Oracle per run: GetBuildDirectory is called exactly once, with nil iff do_not_cache and otherwise the action's own digest; if it returned a directory, that handle is closed exactly once, no call is made on any handle after its Close, every entered handle is closed exactly once and before the build directory is closed; a failing Close of the build directory yields a non-OK response (its code when nothing else failed); any other reached failing call except Close of an entered handle yields a non-OK response; nothing but root, tmp, server_logs, stdout, stderr exists in the build directory (only root when the command was rejected); plus the result oracles of C09 executor_upload_faults. NON-TRIVIAL: the fault was reached and at least 3 directory handles had been opened in that run, or the fault hit GetBuildDirectory/Close of the build directory; distinct by (scenario, fault) hash"
+const c12ExecutorRule = "rapid: scenarios as C09 executor_upload_faults (including escaping working directories / output paths), backend in {in-memory fake x3, real virtual build directory x1}; the BuildDirectory returned by the fake BuildDirectoryCreator and every handle entered from it are wrapped (call sequence numbers, Close counts). After the fault-free run, one run per fault: every fallible call before the runner returns (GetBuildDirectory, Mkdir of root / output parents / tmp / server_logs, EnterBuildDirectory, MergeDirectoryContents, fetching the command, Close of the handles used to create parents), the runner call, every Close, and up to 10 drawn calls of the upload phase (UploadFile, Lstat, ReadDir, Readlink, Enter, CAS Put) -- each once failing (drawn gRPC status / errno) and once with the outer context cancelled at that call (fake runner, CAS and creator refuse a done context like gRPC clients). Oracle per run: GetBuildDirectory is called exactly once, with nil iff do_not_cache and otherwise the action's own digest; if it returned a directory, that handle is closed exactly once, no call is made on any handle after its Close, every entered handle is closed exactly once and before the build directory is closed; a failing Close of the build directory yields a non-OK response (its code when nothing else failed); any other reached failing call except Close of an entered handle yields a non-OK response; nothing but root, tmp, server_logs, stdout, stderr exists in the build directory (only root when the command was rejected); plus the result oracles of C09 executor_upload_faults. NON-TRIVIAL: the fault was reached and at least 3 directory handles had been opened in that run, or the fault hit GetBuildDirectory/Close of the build directory;  READINESS CHECKS (one case in five, labels readiness_check, readiness_fault_at_<call>): scenario = backend x what the fake runner answers (ready x2 / one of 12 gRPC codes x1); the real LocalBuildExecutor.CheckReadiness runs once fault-free, then once per recorded fallible call (today creator.Get, dir.Mkdir of check_readiness, runner.CheckReadiness, dir.Close of the build directory; any Enter/Close the code would add is recorded by the same wrapper) x {the call fails with a drawn gRPC status / errno, the context is cancelled at the call}. Oracle per run: GetBuildDirectory called exactly once with a nil digest; a handed-out build directory is closed exactly once, after every other handle, nothing used after its Close, every entered handle closed exactly once; the runner is asked at most once (exactly once when nothing failed), for path check_readiness, while that directory exists in a build directory that is still open; a reached failing GetBuildDirectory / Mkdir / runner call makes CheckReadiness return an error with the injected code, a call refused because of the cancellation makes it return an error, a runner that is not ready makes it return the runner's code, otherwise nil (the result of the deferred Close is dropped by the code: nothing required); nothing but check_readiness exists in the build directory afterwards. NON-TRIVIAL (readiness): the fault was reached; distinct by (scenario, fault) hash"
 
 func TestC12ExecutorBuildDirectoryLifecycle(t *testing.T) {
 	rec := simkit.NewRecorder(t, "C12", "executor_lifecycle", c12ExecutorRule)
@@ -697,5 +704,12 @@ func TestC12ExecutorBuildDirectoryLifecycle(t *testing.T) {
 			return len(out.tracker.handles) >= 3 || h.Kind == "creator.Get" || (h.Kind == "dir.Close" && h.Path == "")
 		},
 	}
-	rapid.Check(t, func(rt *rapid.T) { runExecutorFaultCase(rt, t, rec, cfg, func() string { return "" }) })
+	rapid.Check(t, func(rt *rapid.T) {
+		// One case in five drives CheckReadiness() instead of Execute().
+		if rapid.IntRange(0, 4).Draw(rt, "readiness_check") == 0 {
+			runReadinessFaultCase(rt, rec, cfg.backends)
+			return
+		}
+		runExecutorFaultCase(rt, t, rec, cfg, func() string { return "" })
+	})
 }
